@@ -336,6 +336,97 @@ def config_validation(ctx):
                     raise HarnessError(f"config size model {bad} did not replay")
 
 
+BUNDLE_PROGRAMS = [
+    ("bundle-play", '10 PLAY "CDE"'), ("bundle-string", '10 A$ = STRING$ ( 3 , "X" )'), ("bundle-hdraw-string", '10 HDRAW "U5" : A$ = STRING$ ( 2 , "Y" )'),
+    ("bundle-hprint", '10 HPRINT ( 1 , 2 ) , "HI"'), ("bundle-many", '10 PLAY "C" : HDRAW "U5" : A$ = STRING$ ( 2 , "Y" ) + STR$ ( 1 ) + HEX$ ( 2 ) : B = INSTR ( 1 , A$ , "Y" ) + VAL ( A$ )'),
+]
+
+
+def bundle_sizes(job):
+    """the whole emitted bundle (program plus bundled runtime procedures) under a symbolic default size: every string
+    declaration in it - DIM or PARAM, of the program or of a library procedure - carries that size"""
+    label, src = job
+    from coco.b09 import compiler, elements as el
+
+    st = smt.Stats()
+    smt.STATS = st
+    out = {"job": job, "sigs": [], "paths": 0, "samples": []}
+    s = z3.Int("s")
+
+    def fn():
+        return compiler.convert(src + "\n", add_standard_prefix=True, add_suffix=True, output_dependencies=True, procname="prog", default_str_storage=symproxy.SInt(s))
+
+    had = hasattr(el, "defaultdict")
+    old = getattr(el, "defaultdict", None)
+    if had:
+        el.defaultdict = lambda factory=None: symproxy.SymDict(factory)
+    try:
+        paths = symproxy.explore(fn, premises=[s >= 1, s <= 32766, s != 32])
+    finally:
+        if had:
+            el.defaultdict = old
+    out["paths"] = len(paths)
+    for pc, (stt, text), holes in paths:
+        if stt != "ok":
+            out["sigs"].append((f"harness:bundle conversion on a symbolic size: {stt} {str(text)[:80]}", str(text), None))
+            continue
+        ndecl = 0
+        for ln in text.replace("\r", "\n").split("\n"):
+            code = re.sub(r'"[^"]*"', '""', ln)
+            code = re.sub(r"\(\*.*", "", code)
+            if not re.match(r"(?i)\s*(\d+\s+)?(dim|param)\b", code):
+                continue
+            for m in re.finditer(r"(?i):\s*string\b\s*(\[\s*([^\]]*)\])?(<<>>)?", code):
+                if re.match(r"(?i)\s*param\b", code) and not m.group(1) and not m.group(3) and label != "never":
+                    # PARAM s: STRING without a tag in the library text: declared that way by the library itself
+                    lib_has = True
+                ndecl += 1
+                st.bump("obligations")
+                size = m.group(2)
+                if m.group(3) or size is None:
+                    # is this declaration one the library wrote without a placeholder?  then it is not the tool's to size
+                    plain_in_library = (not m.group(3)) and any(code.strip().lower() == l2.strip().lower() for l2 in library_lines())
+                    if plain_in_library:
+                        st.bump("identity")
+                        continue
+                    out["sigs"].append((f"bundle-string-size:{label}:{'placeholder-left' if m.group(3) else 'no-explicit-size'}", f"{code.strip()!r} in the emitted bundle", {"default_str_storage": 80}))
+                    continue
+                hm = symproxy.HOLE_RE.fullmatch(size.strip())
+                if hm:
+                    term = holes[int(hm.group(1))][1]
+                    if term.eq(s):
+                        st.bump("identity")
+                        continue
+                    v, mdl = smt.check(list(pc) + [term != s], 10000, True, stats=st)
+                    st.bump(v)
+                    if v == "sat":
+                        out["sigs"].append((f"bundle-string-size:{label}:wrong-size", f"{code.strip()!r}: size differs from the requested default for s={mdl.eval(s, True)}", {"default_str_storage": mdl.eval(s, True).as_long()}))
+                elif size.strip().isdigit():
+                    # a literal size: must be one the library text itself carries
+                    if any(code.strip().lower() == l2.strip().lower() for l2 in library_lines()):
+                        st.bump("identity")
+                    else:
+                        out["sigs"].append((f"bundle-string-size:{label}:literal-size", f"{code.strip()!r}: literal size under a symbolic request", {"default_str_storage": 80}))
+        if not ndecl:
+            out["sigs"].append(("harness:no string declaration found in the bundle", label, None))
+        if len(out["samples"]) < 1:
+            out["samples"].append({"source": src, "string_declarations_in_bundle": ndecl, "options": "output_dependencies=True, symbolic default_str_storage"})
+    out["stats"] = st.export()
+    return out
+
+
+_LIBLINES = None
+
+
+def library_lines():
+    global _LIBLINES
+    if _LIBLINES is None:
+        from vf.tv import lib as tvlib
+
+        _LIBLINES = [re.sub(r"\(\*.*", "", ln.rstrip("\r")) for ln in tvlib.library_text().split("\n")]
+    return _LIBLINES
+
+
 def run(tier):
     ctx = Ctx("C10", tier, "translation_validation", technique="real convert() pipeline executed with z3-backed string sizes (symbolic default and configured size); declarations read back by the loader; z3 decides capacity = requested size for all sizes 1..32766")
     smt.reset_stats()
@@ -363,6 +454,17 @@ def run(tier):
                 ctx.stats["unloadable_outputs(C07)"] += 1
             else:
                 ctx.violation(sig, f"{r['job'][1]!r} (initialize_vars={r['job'][2]}) -> {what}", {"source": r["job"][1], "initialize_vars": r["job"][2], "witness": witness})
+    for r in pmap(bundle_sizes, BUNDLE_PROGRAMS, chunksize=1):
+        ctx.stats["programs"] += 1
+        ctx.stats["states"] += r["paths"]
+        ctx.add_solver_stats(r["stats"])
+        for smp in r["samples"]:
+            ctx.sample(smp, limit=14)
+        for sig, what, witness in r["sigs"]:
+            if sig.startswith("harness"):
+                ctx.harness_gap(f"{r['job'][1]!r}: {sig}")
+            else:
+                ctx.violation(sig, f"{r['job'][1]!r} with dependencies -> {what}", {"source": r["job"][1], "bundle": True, "witness": witness})
     config_validation(ctx)
     ctx.add_solver_stats(smt.STATS.export())
     ctx.extra["solver"] = {"z3": smt.z3_version()}
@@ -375,6 +477,13 @@ def replay(rec):
     from coco.b09.configs import CompilerConfigs, StringConfigs
 
     w = rec.get("witness") or {}
+    if rec.get("bundle"):
+        from vf.realconv import convert_full
+
+        text = convert_full(rec["source"] + "\n", output_dependencies=True, procname="prog", default_str_storage=w.get("default_str_storage", 80))
+        bad = [ln for ln in text.replace("\r", "\n").split("\n") if re.search(r"(?i):\s*string\s*(<<>>|$)", ln)]
+        print(bad[:5])
+        return bool(bad)
     kw = dict(initialize_vars=rec.get("initialize_vars", False))
     if w:
         kw["default_str_storage"] = w["default_str_storage"]
